@@ -224,6 +224,12 @@ CORPUS_QUERIES = [
     # OR and AND on the same level below a negation / a group / a field (the mix is refused wherever it stands)
     'NOT (a OR b AND c)', '-(a b AND c)', '-(a OR b c)', 'x AND NOT (a OR b AND c)', 'x OR -(a b AND c)',
     'f:(a OR b AND c)', '(a OR b AND c)^2', 'NOT (a OR (b AND c))', '-(a (b AND c))',
+    # a prefix operator directly after `field:` (the value is NOT a negative number: the negation stays)
+    'price:-5', 'a:-5', 'a.b:-3', 'a:(b:-3 AND c:x)', 'a:-x', 'a:-1.5', 'a:+5', 'a:NOT 5', 'author:(name:-3)',
+    'author.book.title:-7 x', '-a:5', 'a:(-5)',
+    # an inner field whose dotted name repeats the enclosing names: still relative to the enclosing field
+    'a:(a.b:x)', 'a:(a:x)', 'a:(b:(a.c:x))', 'a:(b:(a.b.c:x))', 'author:(author.name:x)', 'author:(book:(author.book.title:y))',
+    'a.b:(a.b.c:x)', 'n:(n.o:(h:x))',
 ]
 
 
